@@ -1,5 +1,4 @@
 import Proofs.Runs
-import Proofs.Detect
 /-!
 # C08 — the minimum-run filter removes exactly the short bursts
 
@@ -77,27 +76,5 @@ example : ((runLenAt [true, false, true, true] 0 : Nat) : Rat) < 2 := by decide
 example : maskLe [false, true, false] [true, true, false] := by
   refine ⟨rfl, ?_⟩; intro i; match i with
   | 0 => decide | 1 => decide | 2 => decide | (n+3) => simp
-
-/-- THE FILTER AS ITS CALLERS USE IT. Whatever the table and the (valid) thresholds, the labels `detect_bursts_cycles` returns are a fixed point of the filter:
-no run of labelled cycles shorter than `min_n_cycles` survives in the detector's OUTPUT (the detector clears the table's first and last cycle BEFORE it
-filters, and keeps what the filter returns). -/
-theorem C08_callers_cycles (rows : List CycRow) (th : CycThresh) (labels : List Bool) (hv : th.valid) (hk : rows = [] ∨ 0 ≤ th.minN)
-    (h : detectCycles rows th = .ok labels) : minRun labels th.minN = labels := by
-  rw [detectCycles_eq_spec rows th hv hk] at h
-  injection h with h
-  subst h
-  unfold cyclesSpec
-  rw [← C08_pointwise, C08_idempotent]
-
-/-- the same for `detect_bursts_amp`. -/
-theorem C08_callers_amp (fracs : List (Option Rat)) (thr minN : Rat) (labels : List Bool) (h0 : 0 ≤ thr) (h1 : thr ≤ 1)
-    (hk : fracs = [] ∨ 0 ≤ minN) (h : detectAmp fracs thr minN = .ok labels) : minRun labels minN = labels := by
-  rw [detectAmp_eq_spec fracs thr minN h0 h1 hk] at h
-  injection h with h
-  subst h
-  unfold ampSpec
-  rw [← C08_pointwise, C08_idempotent]
-
-example : detectAmp [some 1, some 1, some (1/2), some 1, some 1, some 1] 1 3 = .ok [false, false, false, true, true, true] := by decide +kernel
 
 end Bycycle
